@@ -80,11 +80,11 @@ theorem em_runW (t : W EvalM) (h : ∀ m ∈ t.atoms, EM m) : EM (runW t) := by
       (ihr fun m hm => h m (by simp [W.atoms, hm]))
 
 theorem esteps_evalArgs (ms : List EvalM) (h : ∀ m ∈ ms, EM m) :
-    ∀ (tys : List Ty) (s : St), ESteps s (evalArgs ms tys s).2 := by
+    ∀ (tys : List Ty) (s : St), ms.length ≤ tys.length → ESteps s (evalArgs ms tys s).2 := by
   induction ms with
-  | nil => intro tys s; exact ESteps.refl _
+  | nil => intro tys s _; exact ESteps.refl _
   | cons m ms ih =>
-    intro tys s
+    intro tys s hlen
     unfold evalArgs
     have h1 := h m (by simp) s
     cases hm : m s with
@@ -95,13 +95,14 @@ theorem esteps_evalArgs (ms : List EvalM) (h : ∀ m ∈ ms, EM m) :
       | some r =>
         simp only
         cases tys with
-        | nil => exact h1.tail (EStep.setPanic _ _)
+        | nil => simp at hlen
         | cons t ts =>
           simp only
+          have hlen' : ms.length ≤ ts.length := by simpa using hlen
           have ih' := ih (fun m hm => h m (by simp [hm])) ts
           split
-          · exact (h1.tail (EStep.addErr _ _ _ _ _)).trans (ih' _)
-          · have h3 := ih' s1
+          · exact (h1.tail (EStep.addErr _ _ _ _ _)).trans (ih' _ hlen')
+          · have h3 := ih' s1 hlen'
             cases hr : evalArgs ms ts s1 with
             | mk b s2 =>
               rw [hr] at h3
@@ -116,7 +117,8 @@ theorem esteps_functionCall (g : Globals) (name : Name) (args : List EvalM) (h :
     simp only
     split
     · exact ESteps.single (EStep.addErr _ _ _ _ _)
-    · have h1 := esteps_evalArgs args h fd.params s
+    · rename_i hlt
+      have h1 := esteps_evalArgs args h fd.params s (by omega)
       cases ha : evalArgs args fd.params s with
       | mk a s1 =>
         rw [ha] at h1
